@@ -260,7 +260,12 @@ def isParamKey (k : String) : Bool :=
     | _ => false
   | _ => false
 
-def sortStrings (ks : List String) : List String := ks.mergeSort (fun a b => decide (a ≤ b))
+def insertSorted (a : String) : List String → List String
+  | [] => [a]
+  | b :: bs => if a ≤ b then a :: b :: bs else b :: insertSorted a bs
+
+/-- `sorted(keys)` (insertion sort: structural, so the kernel can evaluate it) -/
+def sortStrings (ks : List String) : List String := ks.foldr insertSorted []
 
 def keyStrings (v : V) : List String :=
   v.setElems.filterMap fun | .str s => some s | _ => Option.none
@@ -765,14 +770,17 @@ def setReq (env : Env) (run : Run) (x : Expr) (c : Nat) (o : V) (v : V) : M V :=
     backendSet env run x c o v
     handle (backendGet env run x c o) fun err => if err = cacheGetFailure then pure v else raise err
 
+/-- the lookup phase of `Cached.evaluate`: `exists` then `get`; a `CacheGetFailure` falls through -/
+def cacheLookup (env : Env) (run : Run) (x : Expr) (c : Nat) (o : V) : M (Option V) := do
+  if ← existsReq env run x c o then
+    handle (do let v ← getReq env run x c o; pure (some v)) fun err =>
+      if err = cacheGetFailure then pure Option.none else raise err
+  else pure Option.none
+
 def cachedOp (env : Env) (run : Run) (x : Expr) (c : Nat) (op : Op) (o : V) : M V :=
   match op with
   | .evaluate => do
-    let hit ← (do
-      if ← existsReq env run x c o then
-        handle (do let v ← getReq env run x c o; pure (some v)) fun err =>
-          if err = cacheGetFailure then pure Option.none else raise err
-      else pure Option.none)
+    let hit ← cacheLookup env run x c o
     match hit with
     | some v => pure v
     | Option.none => do
